@@ -73,7 +73,7 @@ package keeper
 //@   ensures err == nil ==> ret0.Sequence == nextOr1(old(NextL1Sequences)[b])                     // C10: sequence
 //@   ensures err == nil ==> NextL1Sequences == old(NextL1Sequences)[b := Some(ret0.Sequence + 1)] // C10: sequence_bump
 //@   ensures err == nil ==> bank.bal == transfer(old(bank.bal), sender, bridgeAddr(b), d, a)      // C01: escrow
-//@   ensures err == nil ==> a >= 0 && validDenom(d) && addrOK(1, req.Sender) && len(req.To) > 0 && b != 0      // C10: validated
+//@   ensures err == nil ==> a >= 0 && validDenom(d) && addrOK(1, req.Sender) && len(req.To) > 0 && b != 0      // C10,C07: validated (what L1 emits is what the L2 validation of MsgFinalizeTokenDeposit accepts)
 //@   ensures err == nil ==> a < 18446744073709551616                                              // C04,C08: amount_fits_the_uint64_leaf_format
 //@   ensures err == nil ==> TokenPairs == old(TokenPairs)[(b, l2d) := (old(TokenPairs)[(b, l2d)] != None ? old(TokenPairs)[(b, l2d)] : Some(d))]   // C10: token_pair_write_once
 //@   emits err == nil ==> ev("initiate_token_deposit", "bridge_id", fmtU64(b), "l1_sequence", fmtU64(ret0.Sequence),
